@@ -302,6 +302,21 @@ impl Rig {
     pub fn server_mut(&mut self) -> Option<&mut Server> { self.server.as_mut() }
 
     /// Observe one reply datagram: all facts the specification needs, computed by `I`.
+    pub fn reply_event(&mut self, sock: usize, bytes: &[u8], round: &[Sent], t_before_ns: u128, t_after_ns: u128, greased: bool) -> Value {
+        let mut fc = FactCtx { ltk_pub: self.ltk_pub, secrets: &self.secrets, root_ids: &mut self.root_ids, key_ids: &mut self.key_ids };
+        fc.reply_event(sock, bytes, round, t_before_ns, t_after_ns, greased)
+    }
+}
+
+/// what is needed to turn a reply datagram into facts (shared by the in-process rig and the process-level suites)
+pub struct FactCtx<'a> {
+    pub ltk_pub: [u8; 32],
+    pub secrets: &'a Secrets,
+    pub root_ids: &'a mut HashMap<Vec<u8>, usize>,
+    pub key_ids: &'a mut HashMap<Vec<u8>, usize>,
+}
+
+impl<'a> FactCtx<'a> {
     /// `round`: the datagrams sent in this round (ids are 1-based positions).
     pub fn reply_event(&mut self, sock: usize, bytes: &[u8], round: &[Sent], t_before_ns: u128, t_after_ns: u128, greased: bool) -> Value {
         let rf: RespFacts = proto::parse_response(bytes);
